@@ -336,6 +336,26 @@ def bool_tuple_match(scrut, arms):
     return conds
 
 
+def _strip_result_use(e):
+    """`x?`, `x.unwrap()`, `x.expect(..)`, `x.ok()`: the expression x"""
+    e = H.strip(e)
+    for _ in range(3):
+        if e.get("k") == "Try":
+            e = H.strip(e["e"])
+        elif e.get("k") == "MethodCall" and e["name"] in ("unwrap", "expect", "ok", "unwrap_or_default") and H.strip(e["recv"]).get("k") == "MethodCall":
+            e = H.strip(e["recv"])
+        else:
+            break
+    return e
+
+
+def _is_local(e, lid):
+    e = H.strip(e)
+    while e.get("k") == "AddrOf" or (e.get("k") == "Unary" and e.get("op") == "Deref"):
+        e = H.strip(e["e"])
+    return e.get("k") == "Path" and e.get("res") == "local" and e.get("id") == lid
+
+
 def _returned_value(e):
     """`{ return v; }` / `return v`: the expression v, else None"""
     e = H.strip(e)
@@ -557,7 +577,8 @@ class NF:
 
     MUTATORS = {"push", "push_str", "extend", "insert", "append", "clear", "pop", "remove", "retain", "truncate", "sort",
                 "sort_by", "sort_by_key", "sort_unstable", "dedup", "dedup_by_key", "reverse", "drain", "entry", "get_mut",
-                "iter_mut", "swap", "clone_from", "extend_from_slice", "swap_remove", "split_off", "resize", "fill"}
+                "iter_mut", "swap", "clone_from", "extend_from_slice", "swap_remove", "split_off", "resize", "fill", "write_fmt",
+                "write_str", "insert_str"}
 
     def _mutations(self, lid, stmts):
         """Expressions in `stmts` that may mutate local `lid`."""
@@ -654,7 +675,11 @@ class NF:
             e = H.strip(st.get("e")) if k in ("Semi", "Expr") else None
             if e is None or not self._mutations(lid, [e]):
                 continue
+            e = _strip_result_use(e)
             if e.get("k") == "MethodCall" and e["name"] in ("push_str", "push") and len(self._mutations(lid, [e])) == 1:
+                parts += text_of(e["args"][0], env2)
+                continue
+            if e.get("k") == "MethodCall" and e["name"] == "write_fmt" and _is_local(e["recv"], lid):
                 parts += text_of(e["args"][0], env2)
                 continue
             if e.get("k") == "For":
@@ -697,7 +722,11 @@ class NF:
                                 sep = sv[1]
                                 continue
                         return None
+                    xe = _strip_result_use(xe)
                     if xe.get("k") == "MethodCall" and xe["name"] in ("push_str", "push") and len(self._mutations(lid, [xe])) == 1:
+                        pieces += text_of(xe["args"][0], env3)
+                        continue
+                    if xe.get("k") == "MethodCall" and xe["name"] == "write_fmt" and _is_local(xe["recv"], lid):
                         pieces += text_of(xe["args"][0], env3)
                         continue
                     if self._mutations(lid, [xe]):
@@ -1061,9 +1090,18 @@ class Extractor:
                 direct.add(b["path"])
                 continue
             cs = set()
+            param_ids = {i for p in nb["params"] for i, _ in H.pat_bindings(p)}
             for x in H.exprs(nb["value"]):
-                if x.get("k") == "MethodCall" and x.get("name") == "write_fmt":
-                    direct.add(b["path"])
+                if x.get("k") == "MethodCall" and x.get("name") in ("write_fmt", "write_all", "write_str"):
+                    # only writes to a sink handed in as a parameter: `write!(local_string, ..)` builds a value, it emits nothing
+                    pth = (x.get("path") or "") + " " + (x.get("inst_path") or "")
+                    if x.get("name") != "write_fmt" and not any(t in pth for t in ("std::io::Write", "std::fmt::Write", "std::fmt::Formatter", "core::fmt::")):
+                        continue
+                    r = H.strip(x["recv"])
+                    while r.get("k") == "AddrOf" or (r.get("k") == "Unary" and r.get("op") == "Deref"):
+                        r = H.strip(r["e"])
+                    if r.get("k") == "Path" and r.get("res") == "local" and r.get("id") in param_ids:
+                        direct.add(b["path"])
                 if x.get("k") in ("MethodCall", "Call"):
                     p = H.callee_path(x)
                     if p:
@@ -1105,10 +1143,27 @@ class Extractor:
             out = normalize_lines(out)
         return out
 
+    def _ce(self):
+        if getattr(self, "CE", None) is None:
+            self.CE = CallExpander(self.F)
+        return self.CE
+
+    def _is_sink(self, recv, env):
+        """the receiver is the generic writer handed to the function (a parameter, possibly reborrowed)"""
+        r = H.strip(recv)
+        while r.get("k") in ("AddrOf",) or (r.get("k") == "Unary" and r.get("op") == "Deref"):
+            r = H.strip(r["e"])
+        if r.get("k") != "Path" or r.get("res") != "local":
+            return False
+        v = env.get(r["id"])
+        return isinstance(v, tuple) and v[0] == "param"
+
     def _writes(self, e):
         """Does the expression contain a write site or a call to a writer function?"""
         for x in H.exprs(e):
             if x.get("k") == "MethodCall" and x.get("name") == "write_fmt":
+                return True
+            if x.get("k") == "MethodCall" and x.get("name") in ("write_all", "write_str") and "io::Write" in (x.get("path") or "") + (x.get("inst_path") or ""):
                 return True
             if x.get("k") in ("MethodCall", "Call") and (H.callee_path(x) in self.writer_fns):
                 return True
@@ -1126,6 +1181,18 @@ class Extractor:
             return self._visit_block(fn, e["b"], env, ctx, out, how)
         if k == "Ret":
             return self._visit(fn, e["e"], env, ctx, out, "tail")
+        if k == "MethodCall" and e["name"] in ("write_all", "write_str") and len(e["args"]) == 1 and self._is_sink(e["recv"], env):
+            # `writer.write_all(text.as_bytes())`: the text verbatim
+            v = self.NF.nf(e["args"][0], env)
+            while v[0] == "call" and str(v[1]).rsplit("::", 1)[-1] in ("as_bytes", "as_str", "as_ref") and len(v[2]) == 1:
+                v = v[2][0]
+            a0 = H.strip(e["args"][0])
+            parts = (("lit", v[1]),) if v[0] == "lit" and isinstance(v[1], str) else (("hole", v, "display", "&str"),)
+            for pp, extra in (canon_parts(parts, self._ce()) if CANON else [(parts, ())]):
+                out.append(Emit(fn, e, None, pp, ctx + extra, how, len(out), e["recv"]))
+            return
+        if k == "MethodCall" and e["name"] == "write_fmt" and not self._is_sink(e["recv"], env):
+            return   # formatting into a local value (String), not into the output
         if k == "MethodCall" and e["name"] == "write_fmt":
             fa = e["args"][0]
             nf = self.NF.format_nf(fa, env)
